@@ -269,6 +269,8 @@ pub fn monitor_reset_ops() {
 }
 pub fn set_monitor_mode(on: bool) {
   MONITOR.with(|m| m.set(on));
+  // the lock-operation budget is per monitored run
+  MON_OPS.with(|c| c.set(0));
 }
 pub fn set_monitor_hash_seed(s: u64) {
   MON_HASH_SEED.with(|m| m.set(s));
